@@ -165,11 +165,19 @@ where
                             a.samples.push(j);
                         }
                     }
-                    match test(&v, &mut a) {
-                        Ok(()) => Ok(()),
-                        Err(m) => {
+                    // a panic of the harness itself (not of the code under test, which runs inside
+                    // `sim::guarded`) is a harness defect: inconclusive, never a violation
+                    let r = std::panic::catch_unwind(std::panic::AssertUnwindSafe(|| test(&v, &mut a)));
+                    match r {
+                        Ok(Ok(())) => Ok(()),
+                        Ok(Err(m)) => {
                             a.frozen = true;
                             Err(TestCaseError::fail(m))
+                        }
+                        Err(_) => {
+                            let j = serde_json::to_string(&v).unwrap_or_default();
+                            a.extra.insert("harness_error".into(), json!(format!("harness panicked on case {}", &j[..j.len().min(2000)])));
+                            Ok(())
                         }
                     }
                 });
@@ -357,6 +365,10 @@ impl Report {
             wall,
             unknown.len()
         );
+        if let Some(h) = self.agg.extra.get("harness_error") {
+            println!("HARNESS-ERROR (inconclusive): {h}");
+            return 2;
+        }
         if !unknown.is_empty() {
             for (f, path) in &unknown {
                 println!("  {}", f.message.replace('\n', "\n    "));
